@@ -744,8 +744,11 @@ def run(ctx):
     ctx.assumptions += [
         "writes to the client succeed (write errors are I/O faults: E_*_FAILED / send errors are outside the model)",
         "base model (Props.C09): no backend write fails and no topic is exiting while a publish runs; a failing write IS an input of Nsq.Model.ProtoEnv (Props.C09Audit): mpub_all_or_nothing_partial needs `no failing write` (open finding mpub-partial-on-backend-fault), answers_independent_of_broker_partial needs --max-channel-consumers = 0",
-        "options_never_kill_this_tree: no option value lets a connection kill the daemon - F31 (/repo a24e9f3) is committed, nsqd.New refuses output-buffer-timeout <= 0 and client-timeout < 2ns (C09Audit.accepted_iff; tie newTickerOptionChecks_shape_known accepts only that shape). options_never_kill_unchecked_false is about the tree BEFORE F31 (finding ticker-option-kills-daemon, listed fixed; every value is tried in a subprocess on every run: a dying daemon is a VIOLATION)",
-        "dpub_exact: max-req-timeout below 2^63-1 ns; req_clamp: 0 <= max-req-timeout <= 2^63-1 ns",
+        "options_never_kill_this_tree: no option value lets a connection kill the daemon - F31 (/repo a24e9f3) is committed, nsqd.New refuses output-buffer-timeout <= 0 and client-timeout < 2ns (C09Audit.accepted_iff; tie newTickerOptionChecks_shape_known accepts only that shape). options_never_kill_unchecked_false is about the tree BEFORE F31 (finding ticker-option-kills-daemon, listed fixed; five option settings are tried in a subprocess on every run: a dying daemon is a VIOLATION)",
+        "dpub_exact: max-req-timeout below 2^63-1 ns; req_clamp: 0 <= max-req-timeout <= 2^63-1 ns; the REQ clause of `limits` is conditional on "
+        "0 <= max-req-timeout; error_codes_and_classes: AuthGateOk (the auth-gate input is E_AUTH_FIRST, E_AUTH_FAILED or E_UNAUTHORIZED)",
+        "C09Identify: refines_protocol_model - IDENTIFY in state init with a decoded body, connection states equal only when the reply is not "
+        "E_BAD_BODY; negotiation - 1 <= max-deflate-level",
         "F10 repaired (fixes/F10_mpub_body_limit.patch): mpub_total_le_body_limit is a full theorem of the patched tree",
     ]
     ctx.rule = ("correspondence: histories `reset, io…` on four in-process nsqd configurations (small limits S, "
